@@ -21,7 +21,8 @@ maps of 0..6 entries with absent/empty/non-empty values) are converted with the 
 serialised with build_bytes_vec_compressed, parsed, ingested through the hook around the real add_response_to_resources (sync with and without on_discovery channel, and the tokio \
 variant), read back with get_domain_resources(service, cached()) and from_records. Oracle: the discovered set equals the announced set minus the discoverer's own instance; every \
 channel value equals the instance announced by that packet; foreign traffic (own instance, records owned by the service name, sibling service, concatenation-colliding names, parent \
-domain, unrelated names) is never reported. Escape/unescape: bounded-exhaustive over {a . \\ e-acute space} up to length 7 (quick) / 8 (thorough) plus random Unicode. non-trivial = history \
+domain, unrelated names) is never reported. A sampled live family starts pairs of real ServiceDiscovery instances (sync/sync and sync/tokio) on loopback multicast and requires \
+each to report exactly the other (real announce(), receive loops, get_known_services()). Escape/unescape: bounded-exhaustive over {a . \\ e-acute space} up to length 7 (quick) / 8 (thorough) plus random Unicode. non-trivial = history \
 with at least one peer announcement or an escape string containing a dot or backslash; distinct = hash of the history / string",
         assumptions: &["attribute keys are non-empty, free of '=' and do not differ only by case", "re-announcements repeat the same description", "TTLs are large (expiry is C20's subject)"],
         exhaustive: false,
@@ -405,7 +406,118 @@ fn helper_case(ctx: &mut Ctx, idx: u64) {
     }
 }
 
+/// Real services on loopback multicast: two ServiceDiscovery instances of the same (unique) service must report each other
+/// exactly. This is the only family that goes through the real `announce()`, the real receive loops and `get_known_services()`.
+fn live(ctx: &mut Ctx) {
+    use simple_mdns::{async_discovery, sync_discovery};
+    let pid = std::process::id();
+    let rounds = ctx.tier.pick(24u64, 240u64);
+    let rt = tokio::runtime::Builder::new_multi_thread().worker_threads(2).enable_all().build().unwrap();
+    for k in 0..rounds {
+        if ctx.time_up() {
+            break;
+        }
+        let mut r = ctx.rng("live", k);
+        let svc = format!("_l{}x{}._tcp.local", k, pid);
+        let d1 = gen_desc(&mut r, "one");
+        let d2 = gen_desc(&mut r, "two");
+        let tokio_side = k % 2 == 1;
+        ctx.case(true, fnv(format!("live{:?}{:?}{}", d1, d2, tokio_side).as_bytes()));
+        let case = || json!({"family": "live", "idx": k, "service": svc, "first": format!("{:?}", d1), "second": format!("{:?}", d2), "second_is_tokio": tokio_side});
+        let started = monitor::guard(|| {
+            let s1 = sync_discovery::ServiceDiscovery::new(d1.info(1), &svc, 60).map_err(|e| e.to_string())?;
+            std::thread::sleep(std::time::Duration::from_millis(50));
+            let s2 = if tokio_side {
+                let _g = rt.enter();
+                Err(async_discovery::ServiceDiscovery::new(d2.info(2), &svc, 60).map_err(|e| e.to_string())?)
+            } else {
+                Ok(sync_discovery::ServiceDiscovery::new(d2.info(2), &svc, 60).map_err(|e| e.to_string())?)
+            };
+            Ok::<_, String>((s1, s2))
+        });
+        let (mut s1, mut s2) = match started {
+            Ok(Ok(x)) => x,
+            Ok(Err(e)) => {
+                ctx.notes.push(format!("live discovery skipped: services could not start: {}", e));
+                ctx.count("live_rounds_skipped");
+                return;
+            }
+            Err(pn) => {
+                ctx.panic_violation("starting ServiceDiscovery", &pn, case());
+                return;
+            }
+        };
+        let want1: HashSet<InstanceInformation> = [d2.info(3)].into_iter().collect();
+        let want2: HashSet<InstanceInformation> = [d1.info(4)].into_iter().collect();
+        let observe = |s1: &sync_discovery::ServiceDiscovery, s2: &Result<sync_discovery::ServiceDiscovery, async_discovery::ServiceDiscovery>| {
+            let k1 = s1.get_known_services();
+            let k2 = match s2 {
+                Ok(s) => s.get_known_services(),
+                Err(a) => rt.block_on(a.get_known_services()),
+            };
+            (k1, k2)
+        };
+        let mut seen = (HashSet::new(), HashSet::new());
+        let mut ok = false;
+        for phase in 0..2 {
+            let deadline = std::time::Instant::now() + std::time::Duration::from_millis(if phase == 0 { 3000 } else { 2500 });
+            while std::time::Instant::now() < deadline {
+                match monitor::guard(|| observe(&s1, &s2)) {
+                    Ok(o) => seen = o,
+                    Err(pn) => {
+                        ctx.panic_violation("get_known_services", &pn, case());
+                        return;
+                    }
+                }
+                // equality of sets of InstanceInformation (element-wise ==, hashing is C16's subject)
+                let eq = |a: &HashSet<InstanceInformation>, b: &HashSet<InstanceInformation>| a.len() == b.len() && a.iter().all(|x| b.iter().any(|y| x == y));
+                if eq(&seen.0, &want1) && eq(&seen.1, &want2) {
+                    ok = true;
+                    break;
+                }
+                std::thread::sleep(std::time::Duration::from_millis(40));
+            }
+            if ok {
+                break;
+            }
+            // second chance against a lost datagram: announce again through the public API
+            s1.announce(false);
+            match &mut s2 {
+                Ok(s) => s.announce(false),
+                Err(a) => { let _ = rt.block_on(a.announce(false)); }
+            }
+        }
+        if ok {
+            ctx.count("live_pairs_discovered_each_other_exactly");
+        } else {
+            let wrong = |seen: &HashSet<InstanceInformation>, want: &HashSet<InstanceInformation>| seen.iter().any(|x| !want.iter().any(|w| w == x));
+            if wrong(&seen.0, &want1) || wrong(&seen.1, &want2) {
+                ctx.violation("discovered-equals-announced", "live-discovery-differs",
+                    format!("two real ServiceDiscovery instances: first knows {:?} (wanted {:?}); second knows {:?} (wanted {:?})", seen.0, want1, seen.1, want2), case());
+            } else {
+                ctx.count("live_rounds_incomplete_(no_wrong_content)");
+                ctx.inconclusive.push(format!("live discovery round {}: peers did not (fully) discover each other within the time allowed, nothing wrong was reported", k));
+            }
+        }
+        monitor::guard(|| {
+            s1.remove_service_from_discovery();
+            match &mut s2 {
+                Ok(s) => s.remove_service_from_discovery(),
+                Err(a) => rt.block_on(a.remove_service_from_discovery()),
+            }
+        }).ok();
+    }
+    for fp in monitor::take_foreign_panics() {
+        let loc = monitor::short_loc(&fp.location);
+        ctx.violation("discovered-equals-announced", &format!("service-thread-panic@{}", loc), format!("a service thread panicked during live discovery: {}", fp.message), json!({"family": "live", "idx": 0}));
+    }
+    rt.shutdown_timeout(std::time::Duration::from_millis(200));
+}
+
 pub fn run(ctx: &mut Ctx) {
+    if ctx.shard == 0 && !ctx.slow_tool && !cfg!(miri) && ctx.family_active("live") && std::env::var_os("VERIF_C15_NO_LIVE").is_none() {
+        live(ctx);
+    }
     let nhp = if ctx.slow_tool { 6 } else { ctx.tier.pick(20_000u64, 500_000u64) };
     for idx in 0..nhp {
         if ctx.take("helpers", idx) {
